@@ -28,8 +28,7 @@ def bounded(tier):
 
 def run(tier):
     C = Check('C05', tier)
-    C.prove('Properties/C05.v')
-    C.cov['tie']['eo_reader.py'] = 'correspondence-only (hand-written model R Model/Reader.v with the cached break; refinement R<=A proved)'
+    C.prove('Properties/C05.v', units=['G_eo_numeric_limits', 'G_number_encoding_utils', 'G_string_encoding_utils', 'G_eo_reader'], bridges={'Bridge/B_reader.v': ['G_eo_numeric_limits', 'G_number_encoding_utils', 'G_string_encoding_utils', 'G_eo_reader']})
     check_cp1252(C)
     rmod = load_leaf(C.scratch.src, 'eolib.data.eo_reader')
     rng = C.rng
